@@ -69,7 +69,11 @@ OnEll(v, c, rr) == IF SmallRadii(rr) THEN OnEllX(v, c, rr) ELSE OnEllE(v, c, rr)
 NonZeroOffsets(v, c) == Cardinality({i \in 1..3 : v[i] # c[i]})
 \* surface voxels that are not on an axis through the centre: the float expression (3/5)^2 + (4/5)^2 need not
 \* evaluate to 1.0, so the property cannot be decided there and these voxels are not compared
-EllUndecided(v, c, rr) == OnEll(v, c, rr) /\ NonZeroOffsets(v, c) > 1
+\* ... beyond radius 24.  For radii up to 24 the float expression d^2/r^2 (exact integers, one correctly rounded quotient per
+\* axis) classifies every lattice point on the surface correctly (verified exhaustively on the pinned tree), so there the
+\* statement's "exactly" is enforced on the surface too - Pythagorean points such as (5, 12, 0) on radii (13, 13, c).
+CalibratedRadii(rr) == rr[1] <= 24 /\ rr[2] <= 24 /\ rr[3] <= 24
+EllUndecided(v, c, rr) == OnEll(v, c, rr) /\ NonZeroOffsets(v, c) > 1 /\ ~CalibratedRadii(rr)
 
 -----------------------------------------------------------------------------
 \* the shapes as voxel sets
@@ -86,29 +90,31 @@ EShell(n, c, rr, t)  == Ell(n, c, Grow(rr, t \div 2)) \ Ell(n, c, Grow(rr, -(t \
 EShellSkip(n, c, rr, t) == EllSkip(n, c, Grow(rr, t \div 2)) \cup EllSkip(n, c, Grow(rr, -(t \div 2)))
 
 \* the name grammar of generate_mask / parse_shape_string
-NameOf(kind, nums) ==
-    CASE kind = "sphere"    -> "sphere_r" \o ToString(nums[1])
-      [] kind = "cylinder"  -> "cylinder_r" \o ToString(nums[1]) \o "_h" \o ToString(nums[2])
-      [] kind = "s_shell"   -> "s_shell_r" \o ToString(nums[1]) \o "_s" \o ToString(nums[2])
-      [] kind = "ellipsoid" -> "ellipsoid_rx" \o ToString(nums[1]) \o "_ry" \o ToString(nums[2]) \o "_rz" \o ToString(nums[3])
-      [] kind = "e_shell"   -> "e_shell_rx" \o ToString(nums[1]) \o "_ry" \o ToString(nums[2]) \o "_rz" \o ToString(nums[3])
-                                 \o "_s" \o ToString(nums[4])
+\* numbers may be spelled with leading zeros (pad = 1): the patterns read \d+
+Num(x, pad) == IF pad = 1 THEN "0" \o ToString(x) ELSE ToString(x)
+NameOf(kind, nums, pad) ==
+    CASE kind = "sphere"    -> "sphere_r" \o Num(nums[1], pad)
+      [] kind = "cylinder"  -> "cylinder_r" \o Num(nums[1], pad) \o "_h" \o Num(nums[2], pad)
+      [] kind = "s_shell"   -> "s_shell_r" \o Num(nums[1], pad) \o "_s" \o Num(nums[2], pad)
+      [] kind = "ellipsoid" -> "ellipsoid_rx" \o Num(nums[1], pad) \o "_ry" \o Num(nums[2], pad) \o "_rz" \o Num(nums[3], pad)
+      [] kind = "e_shell"   -> "e_shell_rx" \o Num(nums[1], pad) \o "_ry" \o Num(nums[2], pad) \o "_rz" \o Num(nums[3], pad)
+                                 \o "_s" \o Num(nums[4], pad)
 EvenUp(x) == 2 * ((x + 1) \div 2)
 \* edge of the cubic box: the requested one, else 2 max(numbers) + 4 rounded up to even; spherical shells add the thickness
-NameEdge(kind, nums, size) ==
-    LET base == IF size > 0 THEN size ELSE EvenUp(2 * MaxOf(nums) + 4)
+NameEdge(kind, nums, size, exp) ==
+    LET base == IF size > 0 THEN size ELSE EvenUp(2 * MaxOf(nums) + exp)
     IN  IF kind = "s_shell" THEN EvenUp(base + nums[2]) ELSE base
-NameBox(kind, nums, size) == LET e == NameEdge(kind, nums, size) IN <<e, e, e>>
-FromName(kind, nums, size) ==
-    LET n == NameBox(kind, nums, size)
+NameBox(kind, nums, size, exp) == LET e == NameEdge(kind, nums, size, exp) IN <<e, e, e>>
+FromName(kind, nums, size, exp) ==
+    LET n == NameBox(kind, nums, size, exp)
         c == DefaultCentre(n)
     IN  CASE kind = "sphere"    -> Ball(n, c, nums[1])
           [] kind = "cylinder"  -> Cyl(n, c, nums[1], nums[2])
           [] kind = "s_shell"   -> SShell(n, c, nums[1], nums[2])
           [] kind = "ellipsoid" -> Ell(n, c, <<nums[1], nums[2], nums[3]>>)
           [] kind = "e_shell"   -> EShell(n, c, <<nums[1], nums[2], nums[3]>>, nums[4])
-NameSkip(kind, nums, size) ==
-    LET n == NameBox(kind, nums, size)
+NameSkip(kind, nums, size, exp) ==
+    LET n == NameBox(kind, nums, size, exp)
         c == DefaultCentre(n)
     IN  CASE kind = "ellipsoid" -> EllSkip(n, c, <<nums[1], nums[2], nums[3]>>)
           [] kind = "e_shell"   -> EShellSkip(n, c, <<nums[1], nums[2], nums[3]>>, nums[4])
@@ -129,11 +135,12 @@ DiffM(ms)  == Xor(ms[1], ms[2])                       \* stated for two masks on
 \*   [shape |-> "ell",     n, c, dc, rr]           even boxes
 \*   [shape |-> "sshell",  n, c, dc, r, t]         2r >= t
 \*   [shape |-> "eshell",  n, c, dc, rr, t]        even boxes, t even, rr[i] - t/2 >= 1
-\*   [shape |-> "name",    kind, nums, size]       size = 0: default box
+\*   [shape |-> "name",    kind, nums, size, exp, pad]   size = 0: default box 2 max + exp (mask_expansion), pad: spelling
+\*   [shape |-> "empty",   n]                      the empty mask (algebra input)
 \*   [shape |-> "bits",    n, bit]                 truth-table mask: voxel v belongs iff bit `bit` of Lin(v) is set
 \*   [shape |-> "algebra", n, parts]               parts: sequence of 1..5 requests with the same box
 Pow2(e) == IF e = 0 THEN 1 ELSE IF e = 1 THEN 2 ELSE IF e = 2 THEN 4 ELSE IF e = 3 THEN 8 ELSE 16
-BoxOf(q) == IF q.shape = "name" THEN NameBox(q.kind, q.nums, q.size) ELSE q.n
+BoxOf(q) == IF q.shape = "name" THEN NameBox(q.kind, q.nums, q.size, q.exp) ELSE q.n
 
 MaskOf(q) ==
     CASE q.shape = "sphere" -> Ball(q.n, q.c, q.r)
@@ -141,13 +148,14 @@ MaskOf(q) ==
       [] q.shape = "ell"    -> Ell(q.n, q.c, q.rr)
       [] q.shape = "sshell" -> SShell(q.n, q.c, q.r, q.t)
       [] q.shape = "eshell" -> EShell(q.n, q.c, q.rr, q.t)
-      [] q.shape = "name"   -> FromName(q.kind, q.nums, q.size)
+      [] q.shape = "name"   -> FromName(q.kind, q.nums, q.size, q.exp)
       [] q.shape = "bits"   -> {v \in Box(q.n) : (Lin(q.n, v) \div Pow2(q.bit - 1)) % 2 = 1}
+      [] q.shape = "empty"  -> {}
 
 SkipOf(q) ==
     CASE q.shape = "ell"    -> EllSkip(q.n, q.c, q.rr)
       [] q.shape = "eshell" -> EShellSkip(q.n, q.c, q.rr, q.t)
-      [] q.shape = "name"   -> NameSkip(q.kind, q.nums, q.size)
+      [] q.shape = "name"   -> NameSkip(q.kind, q.nums, q.size, q.exp)
       [] OTHER -> {}
 
 WellFormed(q) ==
@@ -160,12 +168,15 @@ WellFormed(q) ==
                                /\ \A i \in 1..3 : q.rr[i] - q.t \div 2 >= 1 /\ q.n[i] % 2 = 0
                                /\ q.c \in Box(q.n) /\ (q.dc => q.c = DefaultCentre(q.n))
       [] q.shape = "name"   -> /\ \A i \in DOMAIN q.nums : q.nums[i] >= 1
+                               /\ q.exp >= 0 /\ q.pad \in {0, 1}
                                /\ q.kind = "s_shell" => 2 * q.nums[1] >= q.nums[2] /\ q.size = 0
                                /\ q.kind = "e_shell" => /\ q.nums[4] % 2 = 0
                                                         /\ \A i \in 1..3 : q.nums[i] - q.nums[4] \div 2 >= 1
                                /\ q.kind \in {"ellipsoid", "e_shell"} => q.size % 2 = 0
       [] q.shape = "bits"   -> q.bit \in 1..5
+      [] q.shape = "empty"  -> TRUE
       [] q.shape = "algebra" -> /\ Len(q.parts) \in 1..5
+                                /\ q.cont \in {"list", "tuple"}          \* the container the masks are handed over in
                                 /\ \A i \in DOMAIN q.parts : q.parts[i].shape # "algebra" /\ BoxOf(q.parts[i]) = q.n
 
 
